@@ -3,9 +3,13 @@
    ONE try_set_min / try_set_max, whatever branch the setter takes (clamping, tolerance, quantisation).
    Proved after the repair of FloatInterval::mid: every split at a point that passes the code's own test makes progress in
    both children (bisect_progress); the stall of the unrepaired code is kept as bisect_stall_prefix_refuted.
-   NOT proved (declared gap): the lift to a whole FloatLinLe / FloatLinEq pruning step (needs the closeness of the binary64
-   accumulation to its exact-rational reading), failure-freeness of the setters for a robust witness, that the fall-back split
-   point passes the test.  The check's witness-constructed families carry that part. *)
+   Proved (stage 1-3, Proofs/FloatSearchProofs.v): the lift of a per-propagator contract to the propagation loop and the bisection
+   search (robust_never_nosolution), the contract for plain comparisons (integers exactly; floats with margin 2.01 / 4.02 steps),
+   failure-freeness of the setters for a robust witness (inside near_setters), the reduction of FloatLinLe to an accuracy
+   hypothesis on its computed bound, and the accumulation-error lemma.
+   NOT proved (declared gap): the accuracy hypothesis flin_acc_ok from a margin on the exact row (composition of the rounding
+   errors), FloatLinEq, strict comparisons and equality with a constant over floats, split_ok_hyp (fall-back mid passes the test;
+   quantisation does not overshoot the mid), termination.  The check's witness-constructed families carry that part. *)
 From Coq Require Import ZArith Bool Reals List Lia.
 Import ListNotations.
 From Flocq Require Import Core.Core IEEE754.BinarySingleNaN IEEE754.Binary IEEE754.Bits.
@@ -135,6 +139,62 @@ Theorem wsafe_int_comparisons : forall T w base v c,
 Proof. intros T w base v c Hint. split; intro H.
   - apply wsafe_int_le_const; auto. - apply wsafe_int_ge_const; auto. Qed.
 Print Assumptions wsafe_int_comparisons.
+
+(* STAGE 2, float part.  The setters on a store that is near w (the witness may already be outside the interval by T steps):
+   an upper bound v with  w + T*step <= v  (T >= 2.01, Magn) makes try_set_max succeed, stay well-formed, not widen and keep
+   w near; mirrored for try_set_min.  Hence the contract for the plain comparisons, for EVERY base store inside Magn:
+     x <= c, c <= x   (float variable, float constant)   with witness margin  T*step
+     x <= y           (two float variables, same step)   with witness margin  2*T*step
+   i.e. with T = 2.01: 2.01 resp. 4.02 steps, the relative term of robust_witness_survives_partial being absorbed by Magn
+   (|v|*2^-50 <= step).  NOT covered: strict comparisons over float variables (x.next() <= y goes through FloatInterval::next /
+   prev, whose step-or-ulp case split needs a bit-level bound on ulp under Magn), and x == c: Eq<VarId,Val> is NOT wsafe in
+   this sense even for c on the grid -- on a store whose interval excludes c by less than T steps (which `near` allows after a
+   split) both setters are absorbed by their tolerances and the exact test of the constant view (max >= c) fails. *)
+Theorem near_setters : forall T i v r, 201/100 <= T -> magn_b i v = true -> near_iv T i r ->
+  (r + T * R_ (istep i) <= R_ v -> exists i' e, tsmax_ff i v = Some (i', e) /\ near_iv T i' r /\ sle_var (VF i') (VF i)) /\
+  (R_ v <= r - T * R_ (istep i) -> exists i' e, tsmin_ff i v = Some (i', e) /\ near_iv T i' r /\ sle_var (VF i') (VF i)).
+Proof. intros T i v r HT M N. split; intro H. apply near_tsmax; auto. apply near_tsmin; auto. Qed.
+Print Assumptions near_setters.
+
+Theorem wsafe_float_comparisons : forall T w base, 201/100 <= T ->
+  (forall v i0 c, (v < length base)%nat -> fget base v = VF i0 -> magn_b i0 c = true ->
+     (w v + T * R_ (istep i0) <= R_ c -> wsafe_below T w base (mk_fleq (FVar v) (FConst (VlF c)))) /\
+     (R_ c <= w v - T * R_ (istep i0) -> wsafe_below T w base (mk_fleq (FConst (VlF c)) (FVar v)))) /\
+  (forall x y ix0 iy0, x <> y -> (x < length base)%nat -> (y < length base)%nat ->
+     fget base x = VF ix0 -> fget base y = VF iy0 -> istep ix0 = istep iy0 ->
+     magn_b ix0 (imin iy0) = true -> magn_b ix0 (imax iy0) = true -> magn_b iy0 (imin ix0) = true -> magn_b iy0 (imax ix0) = true ->
+     w x + 2 * T * R_ (istep ix0) <= w y -> wsafe_below T w base (mk_fleq (FVar x) (FVar y))).
+Proof. intros T w base HT. split.
+  - intros v i0 c Hv Hg M. split; intro H. eapply wsafe_float_le_const; eauto. eapply wsafe_float_ge_const; eauto.
+  - intros. eapply wsafe_float_le_var; eauto. Qed.
+Print Assumptions wsafe_float_comparisons.
+
+(* STAGE 3 (numeric), delivered as two separately proved halves.
+   (i) REDUCTION  flin_le_wsafe_partial: FloatLinLe (repaired flin_le_step) over float variables inside Magn satisfies the
+       contract whenever the bound it COMPUTES, on every store below the base that is near w, leaves the witness T steps of
+       the variable (flin_acc_ok): all the case analysis of the propagator (zero coefficients, non-finite bounds, the
+       "improves the current bound" guards, the loop over the positions, the event lists) and of the setters is discharged.
+   (ii) ACCUMULATION ERROR  fsum_error_linear: the binary64 left-to-right accumulation `acc += term` of n finite terms, with
+       no overflow (every partial sum finite) and n <= 2^52, is within  n*(2*2^-53*(|acc0| + sum|t_j|) + 2*2^-1075)  of the
+       exact sum; sum_others_is_fsum: min_other of FloatLinLe IS such an accumulation.
+   MISSING (the `_partial`): deriving flin_acc_ok from a margin on the exact row, i.e. chaining (ii) with the rounding of the
+   n products c_j*b_j, of K - min_other and of the division by c_i, and with  b_j <= w_j + T*step_j  (near).  On paper this needs
+       slack_w(row) >= T*sum_j |c_j|*step_j + (n+3)*2^-52*(|K| + sum_j |c_j|*B_j)        (T = 2.01, B_j = magnitude bound)
+   which the generator's margin 4*tol(row) + 20*step*sum|c_j| exceeds (20 >= 2.01; 4*2^-40 >= (n+3)*2^-52 for n <= 16000). *)
+Theorem flin_le_wsafe_partial : forall T w base cs vs k, 201/100 <= T -> row_float base vs -> flin_acc_ok T w base cs vs k ->
+  wsafe_below T w base (mk_flin_le cs vs k).
+Proof. exact FloatSearchProofs.flin_le_wsafe_partial. Qed.
+Print Assumptions flin_le_wsafe_partial.
+
+Theorem fsum_error_linear : forall ts acc, B64Facts.fin acc -> Forall B64Facts.fin ts -> fsum_fin ts acc ->
+  2 * u53 * INR (length ts) <= 1 ->
+  Rabs (R_ (fsum ts acc) - (R_ acc + rsum ts)) <= INR (length ts) * (2 * u53 * (Rabs (R_ acc) + rabs_sum ts) + 2 * eta0).
+Proof. exact FloatSearchProofs.fsum_error_linear. Qed.
+Print Assumptions fsum_error_linear.
+
+Theorem sum_others_is_fsum : forall term cs vs i j acc, sum_others term cs vs i j acc = fsum (other_terms term cs vs i j) acc.
+Proof. exact sum_others_fsum. Qed.
+Print Assumptions sum_others_is_fsum.
 
 (* the hypotheses of robust_never_nosolution are satisfiable: x0 float declared [0.5, 0.5] (step 0.25), x1 int in {0,1,2,3},
    constraint 1 <= x1, witness (0.5, 2), T = 3; and the model of solve() does return a solution, (0.5, 1) *)
